@@ -264,3 +264,347 @@ def gen_disasm_(src_dir):
     out.extend(d + '\n' for d in tr.aux_defs)
     out.append("Definition gen_to_insn_vec (fuel : nat) (prog : list Z) : res (list hlinsn) :=\n  %s.\n" % term)
     return ''.join(out)
+
+
+# ------------------------------------------------------------------ src/assembler.rs
+
+ITYPES = ['AluBinary', 'AluUnary', 'LoadImm', 'LoadAbs', 'LoadInd', 'LoadReg', 'StoreImm', 'StoreReg', 'JumpUnconditional',
+          'JumpConditional', 'Call', 'Callx', 'Endian(i64)', 'NoOperand']
+OPERANDS = ['Register(i64)', 'Integer(i64)', 'Memory(i64,i64)', 'Nil']
+
+ASM_HDR = ("From Coq Require Import String.\nFrom RbpfV Require Import Ebpf Fmt AsmDefs.\nFrom RbpfV.gen Require Import Opcodes.\n\n")
+
+
+def enum_variants(toks, name):
+    for i in range(len(toks) - 2):
+        if toks[i][1] == 'enum' and toks[i + 1][1] == name:
+            j = i + 2
+            k = R.find_matching(toks, j)
+            body = toks[j + 1:k]
+            out, cur = [], []
+            depth = 0
+            for t in body:
+                if t[0] == 'op' and t[1] in '([':
+                    depth += 1
+                if t[0] == 'op' and t[1] in ')]':
+                    depth -= 1
+                if t[0] == 'op' and t[1] == ',' and depth == 0:
+                    if cur:
+                        out.append(''.join(cur))
+                    cur = []
+                else:
+                    cur.append(t[1])
+            if cur:
+                out.append(''.join(cur))
+            return out
+    raise Unsupported("enum %s not found" % name)
+
+
+class MapEval:
+    """partial evaluation of make_instruction_map(): straight-line inserts, `for` over literal arrays,
+    names built with format!, opcodes built from ebpf constants"""
+
+    def __init__(self, consts):
+        self.consts = consts
+        self.entries = []
+
+    def value(self, e, env):
+        k = e[0]
+        if k == 'ref' or k == 'paren':
+            return self.value(e[1], env)
+        if k == 'str':
+            return rust_str(e[1])
+        if k == 'num':
+            return e[1]
+        if k == 'path':
+            if e[1] in env:
+                return env[e[1]]
+            n = e[1].split('::')[-1]
+            if n in self.consts:
+                return self.consts[n][1]
+            if e[1] in [v.split('(')[0] for v in ITYPES]:
+                return ('itype', e[1])
+            raise Unsupported("make_instruction_map: value %s" % e[1])
+        if k == 'call' and e[1][0] == 'path' and e[1][1] == 'Endian':
+            return ('itype', 'Endian', self.value(e[2][0], env))
+        if k == 'bin' and e[1] == '|':
+            return self.value(e[2], env) | self.value(e[3], env)
+        if k == 'tuple':
+            return tuple(self.value(x, env) for x in e[1])
+        if k == 'array':
+            return [self.value(x, env) for x in e[1]]
+        if k == 'macro' and e[1] == 'format':
+            groups = split_args(e[2])
+            if len(groups) != 1:
+                raise Unsupported("make_instruction_map: format! with positional arguments")
+            s = ''
+            for p in parse_fmt(rust_str(groups[0][0][1])):
+                if p[0] == 'lit':
+                    s += p[1]
+                else:
+                    if p[2] != '' or p[1] not in env:
+                        raise Unsupported("make_instruction_map: format piece")
+                    s += str(env[p[1]])
+            return s
+        raise Unsupported("make_instruction_map: expression %s" % k)
+
+    def bind(self, pat, v, env):
+        if pat[0] == 'ppath':
+            env[pat[1]] = v
+        elif pat[0] == 'ptuple':
+            for p, x in zip(pat[1], v):
+                self.bind(p, x, env)
+        elif pat[0] == 'pref':
+            self.bind(pat[1], v, env)
+        else:
+            raise Unsupported("make_instruction_map: pattern %s" % pat[0])
+
+    def run(self, stmts, env):
+        for st in stmts:
+            if st[0] == 'let' and st[3] is not None and st[3][0] == 'call' and show(st[3][1]) == 'HashMap::new':
+                self.map_name = st[1][1]
+                continue
+            if st[0] == 'let' and st[3] is not None and st[3][0] == 'closure':
+                cl = st[3]
+                params = [p[0][1] for p in cl[1]]
+                b = cl[2]
+                ok = (b[0] == 'block' and len(b[1]) == 1 and b[1][0][1][0] == 'mcall' and b[1][0][1][2] == 'insert'
+                      and show(b[1][0][1][1]) == self.map_name)
+                if not ok or len(params) != 3:
+                    raise Unsupported("make_instruction_map: closure shape")
+                ins = b[1][0][1][3]
+                tup_ok = ins[1][0] == 'tuple' and [show(x) for x in ins[1][1]] == [params[1], params[2]]
+                if show(ins[0]) != '%s.to_string()' % params[0] or not tup_ok:
+                    raise Unsupported("make_instruction_map: insert arguments %s" % show(ins[1]))
+                env[st[1][1]] = ('closure',)
+                continue
+            if st[0] == 'let' and st[3] is not None:
+                self.bind(st[1], self.value(st[3], env), env)
+                continue
+            if st[0] in ('stmt', 'tail'):
+                e = st[1]
+                if e[0] == 'block':
+                    self.run(e[1], dict(env))
+                    continue
+                if e[0] == 'call' and e[1][0] == 'path' and env.get(e[1][1]) == ('closure',):
+                    name, ty, opc = [self.value(a, env) for a in e[2]]
+                    self.entries.append((name, ty, opc))
+                    continue
+                if e[0] == 'for':
+                    for v in self.value(e[2], env):
+                        env2 = dict(env)
+                        self.bind(e[1], v, env2)
+                        self.run(e[3][1], env2)
+                    continue
+                if e[0] == 'path' and e[1] == self.map_name:
+                    continue
+            raise Unsupported("make_instruction_map: statement at line %s" % (st[2] if len(st) > 2 else '?'))
+
+
+def itype_term(v):
+    if len(v) == 3:
+        return '(Endian %d)' % v[2]
+    return v[1]
+
+
+def gen_asm(src_dir):
+    rsimp.RESERVED_EXTRA = {'opc', 'dst', 'src', 'off', 'imm'}
+    try:
+        return gen_asm_(src_dir)
+    finally:
+        rsimp.RESERVED_EXTRA = set()
+
+
+def gen_asm_(src_dir):
+    env, _ = U.read_consts(src_dir)
+    toks = U.load(src_dir, 'assembler.rs')
+    ptoks = U.load(src_dir, 'asm_parser.rs')
+    if enum_variants(toks, 'InstructionType') != ITYPES:
+        raise Unsupported("enum InstructionType changed: %s" % enum_variants(toks, 'InstructionType'))
+    if enum_variants(ptoks, 'Operand') != OPERANDS:
+        raise Unsupported("enum Operand changed: %s" % enum_variants(ptoks, 'Operand'))
+    out = [U.HDR % 'src/assembler.rs (make_instruction_map, insn, operands_tuple, encode, the lddw second slot)', ASM_HDR]
+    # --- instruction map
+    _, body = R.parse_fn(toks, 'make_instruction_map')
+    me = MapEval(env)
+    me.run(body[1], {})
+    rows = ['  (%s, (%s, %d))' % (coq_str(n), itype_term(t), o) for n, t, o in me.entries]
+    out.append("(* in insertion order; a later insertion of the same key replaces the earlier one (AsmDefs.map_get) *)\n"
+               "Definition gen_instruction_map : list (string * (itype * Z)) := [\n%s ]%%string.\n\n" % ';\n'.join(rows))
+    # --- insn()
+    _, body = R.parse_fn(toks, 'insn')
+    leaves = {'opc': ('opc_', 'U8'), 'dst': ('dst_', 'I64'), 'src': ('src_', 'I64'), 'off': ('off_', 'I64'), 'imm': ('imm_', 'I64')}
+    em = Emitter(env, leaves)
+    install_asm_hooks(em)
+    tr = ImpTr(em, [])
+    term = tr.block(body, 'fn', [], tail_value=True)
+    out.append("Definition gen_insn (opc_ dst_ src_ off_ imm_ : Z) : res insn :=\n  %s.\n\n" % term)
+    # --- operands_tuple()
+    _, body = R.parse_fn(toks, 'operands_tuple')
+    st = body[1][0]
+    if len(body[1]) != 1 or st[1][0] != 'match' or show(st[1][1]) != 'operands.len()':
+        raise Unsupported("operands_tuple: expected a single match on operands.len()")
+    t = 'Err 0'
+    arms = st[1][2]
+    chain = []
+    for pat, guard, b, ln, attrs in arms:
+        if guard is not None:
+            raise Unsupported("operands_tuple: guard")
+        if b[0] == 'call' and show(b[1]) == 'Err':
+            r = 'Err 0'
+        elif b[0] == 'call' and show(b[1]) == 'Ok' and b[2][0][0] == 'tuple' and len(b[2][0][1]) == 3:
+            parts, binds = [], []
+            for x in b[2][0][1]:
+                if x[0] == 'path' and x[1] == 'Nil':
+                    parts.append('Nil')
+                elif x[0] == 'index' and show(x[1]) == 'operands' and x[2][0] == 'num':
+                    v = 'o%d' % len(binds)
+                    binds.append((v, 'op_get operands %d' % x[2][1]))
+                    parts.append(v)
+                else:
+                    raise Unsupported("operands_tuple: component %s" % show(x))
+            r = Emitter.wrap_binds(binds, 'Ok (%s)' % ', '.join(parts))
+        else:
+            raise Unsupported("operands_tuple: arm body")
+        chain.append((pat, r))
+    if chain[-1][0][0] != 'pwild':
+        raise Unsupported("operands_tuple: last arm is not _")
+    t = chain[-1][1]
+    for pat, r in reversed(chain[:-1]):
+        if pat[0] != 'pnum':
+            raise Unsupported("operands_tuple: pattern")
+        t = '(if len_ops operands =? %d then %s else %s)' % (pat[1], r, t)
+    out.append("Definition gen_operands_tuple (operands : list operand) : res (operand * operand * operand) :=\n  %s.\n\n" % t)
+    # --- encode()
+    _, body = R.parse_fn(toks, 'encode')
+    init = body[1][0][3] if len(body[1]) == 2 and body[1][0][0] == 'let' else None
+    if init is not None and init[0] == 'try':
+        init = init[1]
+        while init[0] == 'paren':
+            init = init[1]
+    if init is None or init[0] != 'call' or show(init[1]) != 'operands_tuple' or [show(x) for x in init[2]] != ['operands']:
+        raise Unsupported("encode: expected `let (a, b, c) = operands_tuple(operands)?;` then a match")
+    names = [p[1] for p in body[1][0][1][1]]
+    m = body[1][1][1]
+    if m[0] != 'match' or m[1][0] != 'tuple' or [show(x) for x in m[1][1]] != ['inst_type'] + names:
+        raise Unsupported("encode: scrutinee %s" % show(m[1]))
+    arms = []
+    for pat, guard, b, ln, attrs in m[2]:
+        if guard is not None:
+            raise Unsupported("encode: guard")
+        alts = pat[1] if pat[0] == 'por' else [pat]
+        pats, vars_ = [], None
+        for a in alts:
+            if a[0] == 'pwild':
+                pats.append('_, _, _, _')
+                vs = set()
+            else:
+                if a[0] != 'ptuple' or len(a[1]) != 4:
+                    raise Unsupported("encode: pattern shape")
+                vs = set()
+                pats.append(', '.join(enc_pat(x, vs) for x in a[1]))
+            if vars_ is not None and vars_ != vs:
+                raise Unsupported("encode: alternatives bind different variables")
+            vars_ = vs
+        leaves = {'opc': ('opc_', 'U8')}
+        for v in vars_:
+            leaves[v] = (coqname(v), 'I64')
+        em = Emitter(env, leaves)
+        install_asm_hooks(em)
+        while b[0] == 'block' and len(b[1]) == 1 and b[1][0][0] == 'tail':
+            b = b[1][0][1]
+        if b[0] == 'call' and show(b[1]) == 'Err':
+            r = 'Err 0'
+        elif b[0] == 'call' and show(b[1]) == 'insn' and len(b[2]) == 5:
+            ts = []
+            for x, ty in zip(b[2], ('U8', 'I64', 'I64', 'I64', 'I64')):
+                t_, _ = em.expr(x, ty)
+                ts.append(t_)
+            r = Emitter.wrap_binds(em.take_binds(), 'gen_insn %s' % ' '.join(ts))
+        else:
+            raise Unsupported("encode: arm body %s" % show(b)[:60])
+        arms.append('  | %s => %s' % ('\n  | '.join(pats), r))
+    out.append("Definition gen_encode (inst_type : itype) (opc_ : Z) (operands : list operand) : res insn :=\n"
+               "  bind (gen_operands_tuple operands) (fun '(%s) =>\n  match inst_type, %s with\n%s\n  end).\n\n"
+               % (', '.join(names), ', '.join(names), '\n'.join(arms)))
+    # --- the lddw second slot inside assemble_internal
+    _, body = R.parse_fn(toks, 'assemble_internal')
+    found = []
+
+    def walk(e):
+        if isinstance(e, tuple) and e and e[0] == 'if' and e[1][0] == 'chain' and len(e[1][1]) == 2 and all(c[0] == 'clet' for c in e[1][1]):
+            found.append(e)
+        if isinstance(e, (tuple, list)):
+            for x in e:
+                walk(x)
+    walk(body)
+    if len(found) != 1:
+        raise Unsupported("assemble_internal: expected one `if let .. && let ..` (the lddw special case)")
+    e = found[0]
+    c1, c2 = e[1][1]
+    if c1[1][0] != 'ppath' or show(c1[2]) != 'inst_type' or e[3] is not None:
+        raise Unsupported("assemble_internal: first condition of the lddw case")
+    if c2[1][0] != 'pctor' or len(c2[1][2]) != 1 or c2[2][0] != 'index' or show(c2[2][1]) != 'instruction.operands' or c2[2][2][0] != 'num':
+        raise Unsupported("assemble_internal: second condition of the lddw case")
+    var = c2[1][2][0][1]
+    blk = e[2]
+    if len(blk[1]) != 1 or blk[1][0][1][0] != 'mcall' or blk[1][0][1][2] != 'push' or show(blk[1][0][1][1]) != 'result':
+        raise Unsupported("assemble_internal: body of the lddw case")
+    arg = blk[1][0][1][3][0]
+    if arg[0] != 'mcall' or arg[2] != 'unwrap' or arg[1][0] != 'call' or show(arg[1][1]) != 'insn' or len(arg[1][2]) != 5:
+        raise Unsupported("assemble_internal: pushed value of the lddw case")
+    em = Emitter(env, {var: (coqname(var), 'I64')})
+    install_asm_hooks(em)
+    ts = []
+    for x, ty in zip(arg[1][2], ('U8', 'I64', 'I64', 'I64', 'I64')):
+        t_, _ = em.expr(x, ty)
+        ts.append(t_)
+    inner = Emitter.wrap_binds(em.take_binds(), '(i_ <- unwrap_res (gen_insn %s) ;; Ok [i_])' % ' '.join(ts))
+    out.append("(* `if let %s = inst_type && let %s(%s) = instruction.operands[%d] { result.push(insn(..).unwrap()) }` *)\n"
+               "Definition gen_lddw_second (inst_type : itype) (operands : list operand) : res (list insn) :=\n"
+               "  match inst_type with\n  | %s => (o_ <- op_get operands %d ;; match o_ with %s %s => %s | _ => Ok [] end)\n  | _ => Ok []\n  end.\n"
+               % (c1[1][1], c2[1][1], var, c2[2][2][1], c1[1][1], c2[2][2][1], c2[1][1], coqname(var), inner))
+    return ''.join(out)
+
+
+def enc_pat(p, vs):
+    if p[0] == 'ppath':
+        return p[1]
+    if p[0] == 'pwild':
+        return '_'
+    if p[0] == 'pctor':
+        names = []
+        for x in p[2]:
+            if x[0] == 'ppath':
+                vs.add(x[1])
+                names.append(coqname(x[1]))
+            elif x[0] == 'pwild':
+                names.append('_')
+            else:
+                raise Unsupported("encode: nested pattern")
+        return '%s %s' % (p[1], ' '.join(names))
+    raise Unsupported("encode: pattern %s" % p[0])
+
+
+def install_asm_hooks(em):
+    orig = em.expr
+
+    def expr(e, expect=None):
+        k = e[0]
+        if k == 'mcall' and e[2] == 'contains' and e[1][0] == 'paren' and e[1][1][0] == 'range' and e[1][1][1] == '..':
+            x, ty = em.expr(e[3][0])
+            lo = em.const_value(e[1][1][2])
+            hi = em.const_value(e[1][1][3])
+            if lo is None or hi is None:
+                raise Unsupported("range bounds")
+            return '((%s <=? %s) && (%s <? %s))' % ('(%d)' % lo if lo < 0 else lo, x, x, hi), 'BOOL'
+        if k == 'struct' and e[1] == 'Insn':
+            fs = []
+            for fname, fe in e[2]:
+                t, _ = em.expr(fe)
+                fs.append('%s := %s' % (fname, t))
+            return '{| %s |}' % '; '.join(fs), 'INSN'
+        if k == 'macro' and e[1] == 'format':
+            return 'EmptyString', 'STR'
+        return orig(e, expect)
+    em.expr = expr
